@@ -282,8 +282,8 @@ def app_text(uid, text):
             struct.pack('<IIII', uid & 0xffffffff, 0, len(text), 0) + text + b'\0' * (osz % 4))
 
 
-def unknown_object(ty, size, body=None, fill=0xEE):
+def unknown_object(ty, size, body=None, fill=0xEE, hs=16, hv=1):
     n = max(size, 16) - 16
     if body is None:
         body = bytes([fill]) * n
-    return SIG + struct.pack('<HHII', 16, 1, size, ty) + body[:n].ljust(n, bytes([fill]))
+    return SIG + struct.pack('<HHII', hs, hv, size, ty) + body[:n].ljust(n, bytes([fill]))
